@@ -186,6 +186,7 @@ fn cmd_kernel(args: &Args, which: &str) -> J {
 
 fn main() {
     let args = Args::parse();
+    *world::watchdog::CONTEXT.lock().unwrap() = format!("{} {:?}", args.sub, args.opts);
     if let Some(g) = args.opts.get("gmodel") {
         let _ = world::oracle_guard::GMODEL.set(g.clone());
     }
@@ -196,6 +197,7 @@ fn main() {
         "e2e" => e2e::cmd_e2e(&args),
         "faults" => e2e::cmd_faults(&args),
         "witness" => e2e::cmd_witness(&args),
+        "panics" => e2e::cmd_panics(&args),
         "sched-conf" => e2e::cmd_sched_conf(&args),
         "history" => components::cmd_history(&args),
         "reward" => components::cmd_reward(&args),
